@@ -100,7 +100,7 @@ def schema_job(a):
         for k in sorted(want):
             if got.get(k) != want[k]:
                 kind = {'S': 'struct-size-align', 'F': 'struct-field-offset', 'E': 'enum-value', 'W': 'enum-width', 'I': 'field-id', 'IT': 'union-type-id',
-                        'A': 'struct-constructor-argument', 'D': 'default', 'O': 'optional', 'Z': 'scalar-size', 'V': 'vector-elem-size', 'VT': 'union-type-elem-size'}[k.split()[0]]
+                        'A': 'struct-constructor-argument', 'X': 'absent-field-read-as-present', 'D': 'default', 'O': 'optional', 'Z': 'scalar-size', 'V': 'vector-elem-size', 'VT': 'union-type-elem-size'}[k.split()[0]]
                 probs.append(('layout:%s' % kind, '%s: compiled code says %s for `%s`, the rules say %s' % (kind, got.get(k), k, want[k]),
                               dict(replay, shape=shape, item=k, compiled=got.get(k), expected=want[k])))
                 break
@@ -159,6 +159,9 @@ AIMED = {
     'enum_aliases': 'enum E:int { A = 1, B = 1, C = 0, D = 1 }\nenum F:ubyte (bit_flags) { X = 1, Y = 1 }\nenum G:bool { N, M = false }\n'
                     'table T { e:E = B; f:F = X; g:G = N; v:[E]; }\nstruct S { e:E; f:F; }\nroot_type T;\n',
     'empty_doc_comment': '/**/table T { a:int; }\n/**/ struct S { /**/ a:int; /**/ }\n/// doc\nenum E:int { /**/ A, /** x */ B }\n/* plain */ /**/\n',
+    'sorted_all_kinds': 'enum E:short { A, B }\nstruct S { a:int (key); b:ubyte; }\nstruct F { a:float (key); }\ntable K { k:string (key); n:int; }\ntable N { n:ulong (key); s:string; }\n'
+                        'table T { vs:[string] (sorted); vi:[int] (sorted); vb:[ubyte] (sorted); vd:[double] (sorted); vS:[S] (sorted); vF:[F] (sorted); vK:[K] (sorted); vN:[N] (sorted); '
+                        've:[E]; inner:T; u:U; uv:[U]; }\nunion U { T, K }\nroot_type T;\n',
     'everything_small': 'namespace A.B;\nenum E:ushort (bit_flags) { X, Y = 4 }\nstruct S (force_align: 16) { e:E; a:[char:3]; }\nnamespace ;\n'
                         'table T { s:A.B.S (required); e:A.B.E = Y; o:long = null; f:float = -0.5 (id: 3); t:T (id: 2); x:[A.B.S] (id: 4); }\n'
                         .replace('(required)', '(required, id: 0)').replace('= Y;', '= Y (id: 1);').replace('= null;', '= null (id: 5);'),
